@@ -19,6 +19,7 @@ import Proofs.UndoStructure
 import Proofs.OpGuardSplit
 import Proofs.OpGuardWrap
 import Proofs.OpGuardLift
+import Proofs.OpGuardSetBlock
 import Proofs.OpGuardB
 import Props.C01
 import Props.C12
@@ -2209,18 +2210,45 @@ theorem setNodeMarkupGuard_family (S : Schema) (d d' node nn : Node) (pos : Nat)
   obtain ⟨a, rfl⟩ := createNode_elem S ty attrs ms nn hleaf hc
   exact retypeGuard_family S d d' node _ pos hv hn hna hnl ⟨ty, a, _, rfl, hms⟩ h hal
 
-/-- **`set_block_type`**: the replace-around step it records for a textblock at (mapped) position `s`
-    ending at `e`, retyped to the (non-leaf) textblock type `ty` with the node's own marks -/
+/-- **`set_block_type`**: the replace-around step it records for the textblock `node` at the (mapped) position
+    `s`, retyped to the (non-leaf) textblock type `ty` with the node's own marks.  (That the step ends at
+    `s + node.size` follows from its having applied: `retype_applied_end`.  "Applied" alone does not give the
+    node at `s`: `retypeStep 2 4 X()` applies to `doc(X("a"), X("b"))` — close token, open token — and joins
+    the two siblings around the new node; `set_block_type` reads the node before it builds the step.) -/
 theorem setBlockTypeGuard_family (S : Schema) (d d' node nn : Node) (s e : Nat) (ty : TypeId) (attrs : Attrs)
     (hv : S.checkNode d = true) (hn : fnorm d.kids = true)
-    (hna : d.nodeAt s = .ok (some node)) (he : e = s + node.size) (hnl : node.isLeaf = false)
+    (hna : d.nodeAt s = .ok (some node)) (hnl : node.isLeaf = false)
     (hleaf : (S.nodeType ty).isLeaf = false) (hms : canonicalMarks S node.marks = true)
     (hc : S.createNode ty attrs node.marks = .ok nn)
     (h : S.apply (retypeStep s e nn) d = .ok d') (hal : (retypeStep s e nn).undoAligned d') :
     FamilyGuard S (retypeStep s e nn) d d' := by
+  obtain ⟨a, rfl⟩ := createNode_elem S ty attrs node.marks nn hleaf hc
+  have he : e = s + node.size := retype_applied_end S d d' node _ s e hna hnl rfl h
   subst he
-  exact setNodeMarkupGuard_family S d d' node nn s ty attrs node.marks hv hn hna hnl hleaf
-    (by rw [setFrom_idem_of_canonical S _ hms]; exact hms) hc h hal
+  exact retypeGuard_family S d d' node _ s hv hn hna hnl
+    ⟨ty, a, _, rfl, by rw [setFrom_idem_of_canonical S _ hms]; exact hms⟩ h hal
+
+/-- **`clear_incompatible`** (called by `set_block_type` before it retypes): the `ReplaceStep`s it collects —
+    deleting a child the new type does not take, a space for a newline — satisfy `FamilyGuard`, given
+    pair-alignment (`kids` the children of the node as `clear_incompatible` walks them) -/
+theorem clearEditsGuard_family (S : Schema) (pty : TypeId) (kids : List Node) (q cur : Nat)
+    (hk : S.checkKids kids = true) (st : Step) (d d' : Node)
+    (hst : st ∈ ((clearEdits S pty kids q cur).map Edit.step).reverse) (hal : st.undoAligned d') :
+    FamilyGuard S st d d' := by
+  obtain ⟨a, b, c, rfl, hsn, hp⟩ := clearEdits_steps_payload S pty kids q cur hk st hst
+  exact ⟨hsn, hp, hal⟩
+
+/-- … and its `RemoveMarkStep`s (marks the new type does not allow, child by child) satisfy the planners'
+    guard `PlanGuard` on the documents they are applied to — hence `FamilyGuard` by `planGuard_family`, given
+    the same-type guard and pair-alignment — when every child carrying a forbidden mark is a text or a leaf
+    (children of a textblock without inline nodes that have content) -/
+theorem clearRm_planGuard (S : Schema) (hts : TextLoop S) (pty : TypeId) (d0 dEnd node : Node) (pos q : Nat)
+    (hv : S.checkNode d0 = true) (hna : d0.nodeAt pos = .ok (some node))
+    (hleaf : ∀ c ∈ node.kids, c.isLeaf = true ∨ badMarks S pty c.marks = [])
+    (h : S.applyAll (clearRm S pty node.kids q (pos + 1)) d0 = .ok dEnd) :
+    HistAll (PlanGuard S) (S.stepsHist (clearRm S pty node.kids q (pos + 1)) d0) dEnd ∧ S.checkNode dEnd = true := by
+  obtain ⟨hg, hv'⟩ := clearRm_steps_guard S hts.stable pty d0 dEnd node pos q hv hna hleaf h
+  exact ⟨histAll_mono (fun s d d' hr => .inl hr) _ _ hg, hv'⟩
 
 /-- **the executable guard of PM/OpGuard.lean implies `FamilyGuard`** (replace / replace-around steps; the
     driver request `familyGuard` evaluates it on recorded steps of real histories) -/
